@@ -8,3 +8,5 @@ def check(rep, tier):
     rules_exact.run(rep, tier, ("X-hess",), which="index")
     from contracts import rules_scalar
     rules_scalar.run(rep, tier, adjoint=True)
+    from contracts import discipline
+    discipline.run_trace(rep, tier)
